@@ -251,8 +251,13 @@ func ruleDimensionCaps(c *core.Ctx) {
 				if core.ObjOf(info, as.Rhs[0]) == geo {
 					assign = append(assign, v)
 					o.At(fn.Site(as, "cap applied"))
-				} else {
+				} else if strings.ReplaceAll(core.ExprStr(ast.Unparen(as.Rhs[0])), " ", "") == strings.ReplaceAll(core.ExprStr(as.Lhs[0]), " ", "") {
+					// MaxRows = MaxRows (a folded-in helper handing its argument back): no change
+				} else if _, isK := core.IntConst(info, as.Rhs[0]); isK || strings.Contains(core.ExprStr(as.Rhs[0]), "Rows") {
 					o.FailAt(fn.Site(as, ""), "MaxRows is set to %s, which is not the geometric cap", core.ExprStr(as.Rhs[0]))
+				} else {
+					o.Unrec("%s: MaxRows is set to %s: not traced to the geometric cap", c.Prog.Pos(as.Pos()), core.ExprStr(as.Rhs[0]))
+					assign = append(assign, v)
 				}
 			}
 		}
@@ -437,8 +442,14 @@ func ruleCloseForwarding(c *core.Ctx) {
 					if !isSel || se.Sel.Name != "Close" {
 						continue
 					}
-					// x.field.Close() or x.Embedded.Close()
-					if inSel, ok2 := ast.Unparen(se.X).(*ast.SelectorExpr); ok2 {
+					// x.field.Close() or x.Embedded.Close(), also through a local that holds the field
+					recvX := ast.Unparen(se.X)
+					if id, isID := recvX.(*ast.Ident); isID {
+						if al, has := clf.FieldAliases()[info.ObjectOf(id)]; has {
+							recvX = ast.Unparen(al)
+						}
+					}
+					if inSel, ok2 := recvX.(*ast.SelectorExpr); ok2 {
 						for _, f := range fields {
 							if info.ObjectOf(inSel.Sel) == f {
 								ok = true
